@@ -88,8 +88,26 @@ def task(W, payload):
         return adjfilter_task(W, payload)
     r = random.Random(f"C13:{payload['seed']}:{payload['index']}")
     prog = Gen(r, Opts(max_strats=3, force_strat=True, max_flows=6, allow_requests=False, allow_computed=False, shared_names_bias=0.35)).program()
+    names0 = sorted(set(op["name"] for op in prog["build"] if op["op"] == "flow"))
+    renamed = None
+    if len(names0) >= 2 and payload["index"] % 2 == 0:
+        # one flow name becomes another flow's name followed by "+" and more text: selection by flow name is by EQUALITY (not by prefix, not as a pattern)
+        a_, b_ = r.sample(names0, 2)
+        renamed = (b_, a_ + "+" + b_)
+        for op in prog["build"]:
+            if op["op"] == "flow" and op["name"] == b_: op["name"] = renamed[1]
+            if op["op"] == "stratify":
+                for d_ in op.get("flow_adj") or []:
+                    if d_["flow"] == b_: d_["flow"] = renamed[1]
+            if op["op"] == "request" and op.get("flow") == b_: op["flow"] = renamed[1]
+    if payload["index"] % 3 == 0:
+        # the filter dicts are single objects edited in place between the flow-adding calls
+        for op in prog["build"]:
+            if op["op"] == "flow": op["reuse_filter"] = True
     S = fresh_session(W)
     out = mk_out(prog)
+    if renamed: bump(out, "flow_name_is_prefix_of_another")
+    if payload["index"] % 3 == 0: bump(out, "filter_dict_objects_reused")
     built = S.build(prog["build"])
     # every flow-adding call must create the same number of flows as the model does (selection by name and strata), whatever happens later
     for d in S.log:
